@@ -254,6 +254,10 @@ Definition has_suffix (s suf : bytes) : bool :=
   Nat.leb (length suf) (length s) && beq (skipn (length s - length suf) s) suf.
 Definition units : list (bytes * Z) :=
   [(bs "KB"%string, 1024); (bs "MB"%string, 1048576); (bs "GB"%string, 1073741824); (bs "B"%string, 1); ([], 1)].
+(* `if size < 0 || size > math.MaxInt64/unit.multiplier { return -1 }; return size * unit.multiplier`:
+   the int64 product is only formed when it fits (b9c6637; before, the wrapped product was returned) *)
+Definition size_times (n mult : Z) : Z :=
+  if (n <? 0) || (n >? max_int64 / mult) then -1 else wrap64 (n * mult).
 Fixpoint parse_size_units (s : bytes) (us : list (bytes * Z)) : Z :=
   match us with
   | [] => -1
@@ -261,7 +265,7 @@ Fixpoint parse_size_units (s : bytes) (us : list (bytes * Z)) : Z :=
     if has_suffix s sym
     then match parse_int64 (firstn (length s - length sym) s) with
          | None => -1
-         | Some n => wrap64 (n * mult)          (* size * unit.multiplier: int64 product *)
+         | Some n => size_times n mult
          end
     else parse_size_units s r
   end.
